@@ -89,36 +89,3 @@ Definition powerloss_at (fx : fixes) (maxsz : N) (ops : list wal_op) (i j : nat)
     forall d', crash_cache (run_pfs P (firstn j ms)) d' ->
       crash_ok fx maxsz d' (must_of op (lv_acked lv)) (may_of op (lv_acked lv))
   end.
-
-(* the carve-out: no operation of the scenario issues an ftruncate (logFile.Truncate does not fsync afterwards) *)
-Definition is_ftruncate (m : mut) : bool := match m with MTruncate _ _ => true | _ => false end.
-Fixpoint no_ftruncate (fx : fixes) (maxsz : N) (lv : live) (ops : list wal_op) : Prop :=
-  match ops with
-  | [] => True
-  | op :: r => existsb is_ftruncate (op_muts fx maxsz lv op) = false /\
-               no_ftruncate fx maxsz (step_live fx maxsz lv op) r
-  end.
-
-(* ---------- the exact carve-out: an ftruncate that no fsync of the same file has followed yet ---------- *)
-(* a file history in which every version extends the previous one (only appends since the last fsync) *)
-Inductive append_only : list bytes -> Prop :=
-| ao_nil : append_only []
-| ao_one : forall v, append_only [v]
-| ao_cons : forall v x r, append_only ((v ++ x) :: r) -> append_only (v :: (v ++ x) :: r).
-
-(* some file listed in a directory version that may survive has a truncation among its un-synced versions *)
-Definition pending_ftruncate (P : pfs) : Prop :=
-  exists D s, In D (p_dirs P) /\ In s D /\ ~ append_only (p_files P s).
-
-Definition powerloss_np_at (fx : fixes) (maxsz : N) (ops : list wal_op) (i j : nat) : Prop :=
-  match nth_error ops i with
-  | None => True
-  | Some op =>
-    let lv := run_ops fx maxsz (firstn i ops) in
-    let P := scenario_pfs fx maxsz (mkLive None [] []) (pclean_of []) (firstn i ops) in
-    let ms := op_muts fx maxsz lv op in
-    (j <= length ms)%nat ->
-    ~ pending_ftruncate (run_pfs P (firstn j ms)) ->
-    forall d', crash_cache (run_pfs P (firstn j ms)) d' ->
-      crash_ok fx maxsz d' (must_of op (lv_acked lv)) (may_of op (lv_acked lv))
-  end.
